@@ -77,7 +77,7 @@ def shards(tier):
 
 
 def floors(tier):
-    f = {"cases": 8000, "validator_for_checked": 8000, "validate_checked": 8000, "explicit_cls_checked": 2000, "cli_checked": 100,
+    f = {"cases": 8000, "validator_for_checked": 8000, "validate_checked": 8000, "explicit_cls_checked": 2000, "cli_checked": 100, "cli_explicit_validator_checked": 50,
          "warnings_checked": 1000, "histories_with_registrations": 30, "registrations": 80, "distinguished_pairs": 6,
          "model_confirms_disagreement": 6}
     for s in ("exact#", "exact", "unknown-uri", "non-uri", "missing", "boolean-schema"):
@@ -223,17 +223,25 @@ def check_dispatch(rec, rng, registered, history, scratch, future=()):
                 with open(ip, "w") as f:
                     json.dump(inst, f)
                 out, err = io.StringIO(), io.StringIO()
+                argv = ["-i", ip, "--error-format", "\x1e{error.message}\x1f", sp]
+                cli_cls = want_cls
+                if rng.random() < 0.4:
+                    # an explicitly given class always wins, in the CLI too
+                    dd = rng.choice(impl.DRAFTS)
+                    cli_cls = impl.CLS[dd]
+                    argv = ["--validator", rng.choice(["Draft%dValidator", "jsonschema.Draft%dValidator"]) % dd] + argv
+                    rec.count("cli_explicit_validator_checked")
                 with warnings.catch_warnings():
                     warnings.simplefilter("ignore")
                     try:
-                        code = cli.run(cli.parse_args(["-i", ip, "--error-format", "\x1e{error.message}\x1f", sp]), stdout=out, stderr=err, stdin=io.StringIO(""))
+                        code = cli.run(cli.parse_args(argv), stdout=out, stderr=err, stdin=io.StringIO(""))
                     except Exception as e:
                         code = "exc:" + type(e).__name__
                 os.remove(sp)
                 os.remove(ip)
                 try:
-                    want_cls.check_schema(schema)
-                    msgs = sorted(e.message for e in want_cls(schema).iter_errors(inst))
+                    cli_cls.check_schema(schema)
+                    msgs = sorted(e.message for e in cli_cls(schema).iter_errors(inst))
                 except X.SchemaError as e:
                     msgs = [e.message]
                 except Exception:
@@ -241,7 +249,7 @@ def check_dispatch(rec, rng, registered, history, scratch, future=()):
                 if msgs is not None:
                     got_msgs = sorted(m.split("\x1f")[0] for m in err.getvalue().split("\x1e")[1:])
                     if got_msgs != msgs or (code == 0) != (not msgs):
-                        rec.violation("cli-dispatch", case, "CLI (exit %r) reports %r, the selected class %s reports %r" % (code, got_msgs[:2], want_cls.__name__, msgs[:2]))
+                        rec.violation("cli-dispatch", case, "CLI (exit %r) reports %r, the selected class %s reports %r" % (code, got_msgs[:2], cli_cls.__name__, msgs[:2]))
 
 
 def run_history(rec, ops, seed, scratch):
